@@ -625,7 +625,7 @@ async fn paging_walk(n: usize) -> Result<u64, String> {
     let mut checks = 0u64;
     for size in [0usize, 1, 2, 3, n.max(1) - 1, n, n + 1, n + 2, 1000, 1001, 5000] {
         let eff = if size == 0 { 20 } else if size > 1000 { 1000 } else { size };
-        for start in [None, Some(0usize), Some(1), Some(n), Some(n + 5), Some(usize::MAX / 2)] {
+        for start in [None, Some(0usize), Some(1), Some(n), Some(n + 5), Some(usize::MAX / 2), Some(usize::MAX - 1000), Some(usize::MAX - 999), Some(usize::MAX - 1), Some(usize::MAX)] {
             // topics
             let mut off = start;
             let mut got = Vec::new();
